@@ -122,7 +122,7 @@ def main():
     hooks_commits = ["b58f5221", "ea3878b4"]
     m = {
         "version": 1,
-        "setup_cmd": "true",
+        "setup_cmd": "./tools/setup.sh",
         "hooks": {
             "guard": "erg_verif",
             "enable": "RUSTFLAGS='--cfg erg_verif' when building replay binaries that need private items (vlib/replay.py build(cfg_hook=True)); verification itself reads source text and needs no hook",
